@@ -22,6 +22,8 @@ def run(rep):
     rep.guard(s6, rep, w)
     rep.guard(s7, rep, w)
     rep.guard(s8, rep, w, 'C06')
+    import cache
+    rep.guard(cache.cc1, rep, w, 'C06')     # a remembered global / attribute look-up must not outlive a write to the table it came from
     import c08
     rep.guard(c08.x9, rep, w)    # a global name is looked up in the module of the running frame: the cached module follows every frame change
     import c04_narrow
